@@ -48,3 +48,5 @@ pub fn empty_bytes() -> (r: &'static [u8]) ensures r@.len() == 0 { &[] }
 
 /// R9: `assert!(c, ..)` — the condition becomes a proof obligation (panic freedom)
 pub fn runtime_assert(c: bool) requires c {}
+pub assume_specification[i32::is_negative](x: i32) -> (r: bool) ensures r == (x < 0);
+pub assume_specification[i32::is_positive](x: i32) -> (r: bool) ensures r == (x > 0);
